@@ -51,8 +51,8 @@ def check(ctx):
                      "`()` for no fields; `{..}` iff all named, `(..)` iff all unnamed, Err for mixed; every field described in order, comma between fields; "
                      "field (private helper looked through) = resolve(field.ty.id), wrapped in Box<..> iff the recorded type name contains `Box<`, prefixed by `name: ` iff named")
     DR.expect_golden(ctx, "C13.1", "variants", "desc/variant_type_def_type_description", "description::variant_type_def_type_description",
-                     "`{v1,v2,..}`: every variant in order, comma between variants")
-    DR.expect_golden(ctx, "C13.1", "variant", "desc/variant_type_description", "description::variant_type_description", "variant = its own name followed by its own fields (omitted when `()`)")
+                     "`{v1,v2,..}`: every variant in order, comma between variants; variant (private helper looked through) = its own name followed by its own "
+                     "fields (omitted when `()`)")
     DR.expect_golden(ctx, "C13.3", "tuple", "desc/tuple_type_description", "description::tuple_type_description",
                      "`(a,b)`: every member through resolve(member id) in order; comma after an element iff another follows or the tuple has exactly one element")
     DR.expect_golden(ctx, "C13.5", "type-name", "desc/type_name_with_type_params", "description::type_name_with_type_params",
